@@ -522,7 +522,8 @@ def checkNonOverlap (t : St) (d : Nat) (nodes : List Node) (kc : List (Nat × Na
   let t := { t with nonOverlap := t.nonOverlap + kc.length }
   -- gaps
   let arr := nodes.toArray
-  match kc.find? (fun c => !closeRel c.2.2 (mkNOC d (arr.getD c.1 default) (arr.getD c.2.1 default)).gap) with
+  -- the gap is a sum of two lengths, a halving and `+1e-7`: a few ulps; 1e-9 absolute separates it from a missing 1e-7
+  match kc.find? (fun c => absQ (c.2.2 - (mkNOC d (arr.getD c.1 default) (arr.getD c.2.1 default)).gap) > 1 / 1000000000) with
   | some c => return t.fail s!"cons tie: TopologyConstraints constructor at step {stepNo} (axis {d}): non-overlap constraint x{c.1} + {showQ c.2.2} <= x{c.2.1}: the model's gap is {showQ (mkNOC d (arr.getD c.1 default) (arr.getD c.2.1 default)).gap}"
   | none => pure ()
   let pairs := kc.map fun c => (c.1, c.2.1)
